@@ -856,10 +856,15 @@ def _enc_proc(p):
 
 
 def touch_all(sim):
-    """allocate the slot of every user signal (what the first ctx.get / ctx.set of a testbench does), so that a
+    """allocate the slot of every user signal and every domain's clk/rst (what the first ctx.get / ctx.set /
+    ctx.tick of a testbench does), so that a
     simulator that has run and a new one hold the same set of slots"""
     for sig in sim._c09_sigs:
         sim._engine._state.get_signal(sig)
+    for cd in sim._design.fragment.domains.values():      # ctx.tick() samples clk and rst of its domain
+        sim._engine._state.get_signal(cd.clk)
+        if cd.rst is not None:
+            sim._engine._state.get_signal(cd.rst)
 
 
 def snapshot(sim):
